@@ -57,7 +57,24 @@ fn show(r: &Result<Option<(usize, usize)>, ()>) -> String {
 struct Ctx {
     out: Out,
     seen: HashSet<String>,
+    /// which kinds of bound values each (integer type, selector form) pair has been run with: bit 0 a negative
+    /// bound, 1 zero, 2 the type's MIN, 3 the type's MAX, 4 a bound >= n (n > 0), 5 a bound < -n (n > 0)
+    cover: std::collections::BTreeMap<(String, u8), u8>,
 }
+
+/// value range of the ten integer types, written out (not taken from the crate or from `as` conversions)
+const TYPES: [(&str, bool, i128, i128); 10] = [
+    ("i8", true, -128, 127),
+    ("u8", false, 0, 255),
+    ("i16", true, -32768, 32767),
+    ("u16", false, 0, 65535),
+    ("i32", true, -2147483648, 2147483647),
+    ("u32", false, 0, 4294967295),
+    ("i64", true, -9223372036854775808, 9223372036854775807),
+    ("u64", false, 0, 18446744073709551615),
+    ("isize", true, -9223372036854775808, 9223372036854775807),
+    ("usize", false, 0, 18446744073709551615),
+];
 
 impl Ctx {
     fn check(
@@ -80,6 +97,22 @@ impl Ctx {
             5 => format!("c08 checked toIncl {b} {n}"),
             _ => format!("c08 checked full {n}"),
         };
+        if let Some((_, _, lo, hi)) = TYPES.iter().find(|t| t.0 == ty) {
+            let bounds: &[i128] = match form {
+                0 | 2 => &[a],
+                3 | 5 => &[b],
+                1 | 4 => &[a, b],
+                _ => &[],
+            };
+            let mut mask = 0u8;
+            for &v in bounds {
+                mask |= (v < 0) as u8 | ((v == 0) as u8) << 1 | ((v == *lo) as u8) << 2 | ((v == *hi) as u8) << 3;
+                if n > 0 {
+                    mask |= ((v >= n as i128) as u8) << 4 | ((v < -(n as i128)) as u8) << 5;
+                }
+            }
+            *self.cover.entry((ty.to_string(), form)).or_insert(0) |= mask;
+        }
         let got_s = show(&got);
         let key = format!("{req} {got_s}");
         let expected = py(form, a, b, n as i128);
@@ -319,7 +352,7 @@ fn main() {
     let cfg = Cfg::from_env();
     let out = cfg.out();
     verif_harness::silence_panics();
-    let mut ctx = Ctx { out, seen: HashSet::new() };
+    let mut ctx = Ctx { out, seen: HashSet::new(), cover: Default::default() };
     let mut rng = Rng::new(cfg.seed);
     if let Some(r) = &cfg.replay {
         // re-run exactly the recorded selector (in the recorded integer type, or in every type that holds it)
@@ -383,6 +416,22 @@ fn main() {
         run_type!(ctx, isize, true, ns_mid, bounds_mid, rng, 0);
         run_type!(ctx, usize, false, ns_mid, bounds_mid, rng, 0);
     }
+    // every (integer type, selector form) pair must have met: zero, the type's MIN and MAX, a bound beyond the axis,
+    // and for the signed types a negative bound and one below -n — otherwise the grid itself is defective
+    let mut missing = Vec::new();
+    for (ty, signed, _, _) in TYPES {
+        for form in 0u8..=5 {
+            let need: u8 = if signed { 0b111111 } else { 0b011110 };
+            let have = ctx.cover.get(&(ty.to_string(), form)).copied().unwrap_or(0);
+            if have & need != need {
+                missing.push(format!("{ty} form {form}: have {have:06b} need {need:06b}"));
+            }
+        }
+    }
+    if !missing.is_empty() {
+        ctx.out.fail("HARNESS: a (type, form) pair was not exercised with every class of bound value", json!({"missing": missing}), json!("all classes"), json!("see input"));
+    }
+    ctx.out.extra("type_form_coverage", json!({"pairs": ctx.cover.len(), "classes": "negative, zero, MIN, MAX, >= n, < -n", "missing": missing}));
     ctx.out.extra("exhaustive_grid", json!({"axis_lengths": ns.iter().map(|n| n.to_string()).collect::<Vec<_>>(), "bound_span": span, "axis_lengths_reduced_span": if cfg.thorough { vec![] } else { ns_mid.iter().map(|n| n.to_string()).collect::<Vec<_>>() }, "reduced_span": span_mid, "types": 10, "forms": 7}));
     ctx.out.finish("anchors first (the crate's 15 test_view_bounds literals and the CPython slice.indices table, each in every integer type that holds the bounds); grid: every axis length in the list x every bound in [-span, span] + type MIN/MAX neighbourhood + multiples of n, for each of the 10 integer types and 7 selector forms (quick tier: axis lengths 13..=40 with span 3), plus random bounds over the whole type; non-trivial = n > 0 and (some bound negative or beyond the axis, or the selection non-empty); distinct by (request, answer)");
 }
